@@ -680,6 +680,11 @@ func shPopulateField(m protoreflect.Message, f protoreflect.FieldDescriptor, dep
 
 // ---- evaluation ------------------------------------------------------------------------------------------
 
+func shIsFlattened(fs j5schema.FieldSchema) bool {
+	of, ok := fs.(*j5schema.ObjectField)
+	return ok && of.Flatten
+}
+
 // shPropNameFor is the JSON name under which a field of the message appears in the object (the exposed oneof's name for its members).
 func shPropNameFor(rs j5schema.RootSchema, fd protoreflect.FieldDescriptor) string {
 	var props []*j5schema.ObjectProperty
@@ -904,7 +909,7 @@ func shEval(c *shCase, b *shBuilt) *shEvalResult {
 			site, msg := shGuard(func() { js, err = cc.ProtoToJSON(m) })
 			if suffix != "" {
 				cause, needMin = "", false // the cause is the earlier failed build, whatever made it fail
-			} else if fd != nil && dup[shSchemaName(md)+"/"+shPropNameFor(roots[i], fd)] {
+			} else if fd != nil && (dup[shSchemaName(md)+"/"+shPropNameFor(roots[i], fd)] || shIsFlattened(shPropFor(roots[i], fd)) && dup[shSchemaName(md)]) {
 				// two properties share a JSON name: whatever the codec does with the second one follows from that
 				cause, needMin = "duplicate-names", false
 			}
